@@ -160,7 +160,9 @@ def _check_attr_use(ctx, f, attr_node, par):
 
 # ------------------------------------------------------------------------ C17.2
 FORBIDDEN_CALLS = {"bool", "int", "float", "len", "list", "tuple", "iter", "next", "sum", "any", "all", "min", "max", "abs", "hash", "sorted",
-                   "np.asarray", "np.array", "numpy.asarray", "jnp.asarray", "np.any", "np.all", "complex"}
+                   "np.asarray", "np.array", "numpy.asarray", "jnp.asarray", "np.any", "np.all", "complex", "round", "range", "divmod", "pow", "bytes",
+                   "operator.index", "operator.truth", "operator.not_", "operator.length_hint", "operator.eq", "operator.ne", "operator.lt", "operator.le",
+                   "operator.gt", "operator.ge", "operator.contains", "operator.getitem", "math.floor", "math.ceil", "math.isnan", "math.isfinite"}
 
 
 def _value_vars(ctx, r):
@@ -196,7 +198,27 @@ def _value_vars(ctx, r):
 def check_value_variables(ctx, r):
     m = ctx.model
     n_uses = 0
-    for f, values, containers in _value_vars(ctx, r):
+    try:
+        from ..inventory import FUNCTIONS as _PINNED
+    except ImportError:
+        _PINNED = None
+    work = list(_value_vars(ctx, r))
+    seen_jobs = set()
+    while work:
+        f, values, containers = work.pop(0)
+        key_ = (f.qualname, tuple(sorted(values)), tuple(sorted(containers)))
+        if key_ in seen_jobs:
+            continue
+        seen_jobs.add(key_)
+        values, containers = set(values), set(containers)
+        # `for k, v in <container>.items()` / `for v in <container>.values()`: the loop variable holds an argument value
+        for lp in walk_scope(f.node):
+            it = lp.iter if isinstance(lp, (ast.For, ast.comprehension)) else None
+            if isinstance(it, ast.Call) and isinstance(it.func, ast.Attribute) and isinstance(it.func.value, ast.Name) and it.func.value.id in containers and not it.args:
+                if it.func.attr == "items" and isinstance(lp.target, ast.Tuple) and len(lp.target.elts) == 2 and isinstance(lp.target.elts[1], ast.Name):
+                    values.add(lp.target.elts[1].id)
+                elif it.func.attr == "values" and isinstance(lp.target, ast.Name):
+                    values.add(lp.target.id)
         ctx.saw(f)
         par = _parents(f.node)
         handlers = [h for h in ast.walk(f.node) if isinstance(h, ast.ExceptHandler)]
@@ -223,7 +245,15 @@ def check_value_variables(ctx, r):
                     if fn in ("_pformat", "str", "repr", "type") and not in_handler(n) and fn != "type":
                         bad = f"formatted with `{fn}` outside an exception handler (on the well-typed path)"
                     else:
-                        continue  # forwarded as an argument
+                        # forwarded as an argument; into a function that the pinned tree does not have, the value is followed
+                        t_ = m.resolve_call(f, p)
+                        if _PINNED is not None and t_.kind == "func" and t_.target.qualname not in _PINNED and not t_.target.module.short.startswith("_typeguard") \
+                                and n in p.args and not any(isinstance(a_, ast.Starred) for a_ in p.args[:p.args.index(n) + 1]):
+                            ps_ = [x for x in t_.target.params if not (t_.target.cls is not None and x in ("self", "cls"))]
+                            i_ = p.args.index(n)
+                            if i_ < len(ps_):
+                                work.append((t_.target, set() if is_container else {ps_[i_]}, {ps_[i_]} if is_container else set()))
+                        continue
             elif isinstance(p, ast.keyword):
                 continue
             elif isinstance(p, (ast.Return, ast.Assign, ast.AnnAssign, ast.Tuple, ast.List, ast.Dict, ast.Yield, ast.Expr, ast.FormattedValue)):
@@ -259,6 +289,12 @@ def check_value_variables(ctx, r):
                         if not comp.ifs:
                             continue
                         bad = f"filtered by value (`{short(comp.ifs[0], 50)}`): which arguments `{{name}}` axes can refer to then depends on what the values are"
+                    elif isinstance(comp, ast.For) and comp.iter is par.get(id(p)) and p.attr in ("items", "values") and (
+                            (p.attr == "items" and isinstance(comp.target, ast.Tuple) and len(comp.target.elts) == 2 and isinstance(comp.target.elts[1], ast.Name))
+                            or (p.attr == "values" and isinstance(comp.target, ast.Name))):
+                        continue  # the loop variable is tracked as a value-carrying variable (above)
+                    elif isinstance(comp, ast.For) and p.attr == "keys":
+                        continue
                     else:
                         raise AnalysisError(f"C17.2: `{short(p, 40)}` in {f.qualname}: what is done with the individual argument values is not interpreted")
                 else:
